@@ -121,7 +121,12 @@ RULE = ("histories of 1..6 calls (filter with string / list / tuple / None state
         "from lists and native / big-endian structured arrays, NaN / inf attribute values, instants at both ends of datetime's "
         "range. Oracle: what each text denotes (exact Fraction rounded once by integer division; integer calendar arithmetic). "
         "30 % of the cases add a text that is not a statement (12 malformation kinds): recorded only. The class in "
-        "c04_text.AWAITING_DECISION (datetime text with a non-zero UTC offset) is not generated.")
+        "c04_text.AWAITING_DECISION (datetime text with a non-zero UTC offset; parked as outside the property) is not generated. "
+        "Round 6: every call of a history in one of three call forms (in_place / update_stats / region / statements positionally "
+        "in signature order, by keyword, mixed); the caller's statement list compared with a copy after the call; catalogs just "
+        "above 500 / 2000 / 5000 / 2^16 events (c04_mct.sized_case), time-sorted and unsorted, heavy ties, thresholds equal to a "
+        "row of an early block / the middle / the last row / +-1, all columns and operators, datetime form, exact numpy oracle, "
+        "original untouched and no shared memory with in_place=False; apply_mct positionally and by keywords.")
 
 ATTRS = [("origin_time", "t"), ("latitude", "lat"), ("longitude", "lon"), ("depth", "dep"), ("magnitude", "mag")]
 OPS = [(">", "gt"), ("<", "lt"), (">=", "ge"), ("<=", "le"), ("==", "eq")]
@@ -385,7 +390,7 @@ def gen_history(rng, tier):
             else:
                 reg = gen_region(rng, rows)
                 regions.append(reg)
-            calls.append(dict(kind="spatial", target=target, in_place=in_place, region=reg))
+            calls.append(dict(kind="spatial", target=target, in_place=in_place, region=reg, cf=rng.randrange(3)))
         else:
             k = rng.random()
             if k < 0.1:
@@ -394,7 +399,7 @@ def gen_history(rng, tier):
                 m = rng.choice([0, 1, 1, 1, 2, 2, 3, 4]) if k > 0.4 else 1
                 sts = [gen_stmt(rng, rows) for _ in range(m)]
                 form = rng.choice(["string", "list", "tuple"]) if m == 1 else rng.choice(["list", "tuple"])
-            calls.append(dict(kind="filter", target=target, in_place=in_place, form=form, stmts=sts))
+            calls.append(dict(kind="filter", target=target, in_place=in_place, form=form, stmts=sts, cf=rng.randrange(3)))
         if not in_place:
             nobj += 1   # if the call raises no object is created; targets are re-mapped modulo the live count at run time
     return dict(events=[list(r) for r in rows], filters0=filters0, filters0_form=filters0_form, region0=region0, calls=calls)
@@ -462,11 +467,33 @@ def run_history(run, drv, pending, case):
         before = [list(s) for s in snaps]
         exc = None
         try:
+            # CALL FORMS: every argument positionally and by keyword, in the pinned signature order
+            #   filter(statements=None, in_place=True); filter_spatial(region=None, update_stats=False, in_place=True)
+            cf = call.get("cf", 0)
             if call["kind"] == "filter":
-                res = tobj.filter(py_stmts(call["stmts"], call["form"]), in_place=call["in_place"])
+                arg = py_stmts(call["stmts"], call["form"])
+                arg_copy = list(arg) if isinstance(arg, list) else arg
+                if cf == 1:
+                    res = tobj.filter(arg, call["in_place"])
+                elif cf == 2:
+                    res = tobj.filter(statements=arg, in_place=call["in_place"])
+                else:
+                    res = tobj.filter(arg, in_place=call["in_place"])
+                run.count(f"callform:filter:{('kw-in_place', 'positional', 'all-keywords')[cf]}")
+                # CALLER-OWNED INPUT: the statement list handed over is the caller's
+                if isinstance(arg, list) and arg != arg_copy:
+                    run.oracle_failure(case, f"call {ci}: filter modified the caller's statement list: {arg_copy} -> {arg}")
+                    return
             else:
                 reg = call["region"]
-                res = tobj.filter_spatial(region_obj(reg) if reg is not None else None, in_place=call["in_place"])
+                robj = region_obj(reg) if reg is not None else None
+                if cf == 1:
+                    res = tobj.filter_spatial(robj, False, call["in_place"])
+                elif cf == 2:
+                    res = tobj.filter_spatial(region=robj, update_stats=False, in_place=call["in_place"])
+                else:
+                    res = tobj.filter_spatial(robj, in_place=call["in_place"])
+                run.count(f"callform:filter_spatial:{('kw-in_place', 'positional', 'all-keywords')[cf]}")
         except Exception as e:          # which exception class rejects a call is not part of the property
             exc = type(e).__name__
             exc_text = f"{type(e).__name__}: {e}"
@@ -842,7 +869,7 @@ def replay_case(run, drv, pending, case):
         from . import c04_text
         c04_text.replay(run, case, Driver)
         return
-    if kind in ("mct", "next", "extra", "nan", "session", "bigfilter"):
+    if kind in ("mct", "next", "extra", "nan", "session", "bigfilter", "sized"):
         from . import c04_mct
         c04_mct.replay(run, case, Driver)
         return
@@ -931,7 +958,7 @@ def replay(run, payload):
         from . import c04_text
         c04_text.replay(run, payload["case"], Driver)
         return
-    if payload["case"].get("kind") in ("mct", "next", "extra", "nan", "session", "bigfilter"):
+    if payload["case"].get("kind") in ("mct", "next", "extra", "nan", "session", "bigfilter", "sized"):
         from . import c04_mct
         c04_mct.replay(run, payload["case"], Driver)
         return
